@@ -23,6 +23,13 @@ theorems, at the exp-space reading `LogOf K` of the parameters (`-np.inf` is exp
   potentials (C01E / C02G) — and (C01E `gen_exact_inference_end_to_end`) every stored clique table is `0` there; each stored
   table still sums to the total (`C08E.gen_estimate_answers_valid`, clause 3, same object).
 
+`hgrad` (the gradient of the loss is laid out on the model's cliques) is PROVED for the generated `_marginal_loss`, both metrics,
+arbitrary measurements (`gen_hgrad`: `Proofs/GradLaid.lean` — `+=` by a factor keeps the domain and well-formedness of the updated
+table whatever is added; the generated `belief_propagation` keeps the layout, `C08E.gen_bp_laid`):
+**`gen_estimate_zeros_end_to_end_closed`** / `_L2` / `_L1` have no hypothesis on the loss.  The general forms remain:
+`gen_estimate_zeros_end_to_end_bp` (any loss whose gradient is laid out at the oracle's answers) and
+`gen_estimate_zeros_end_to_end` (… at every argument).
+
 RDA / IG: the per-step facts are here (`gen_rda_rebuild_has_zeros`, `gen_ig_update_keeps_zeros`); the end-to-end statement
 for their returned pair `(mle w, w)` needs the two-sorted run described in C08E and is open.
 -/
